@@ -1,9 +1,198 @@
+"""C03 -- unmarked markup verbatim; tokenising/parsing lose nothing (DESIGN.md section 4, C03)."""
+import itertools
+import random
+
+H = 'checks.hC03'
+
+# tag skeletons as piece lists; symbolic characters are inserted at the gaps between pieces
+SKELETONS = [
+    ['<x', ' ', 'k', '=', '"', 'v', '"', '>'],
+    ['<x', ' ', 'k', '=', "'", 'v', "'", '/>'],
+    ['<x', ' ', 'k', '=', 'v', '>'],
+    ['<x', ' ', 'k', '>'],
+    ['<x', ' ', 'k', ' = ', '"v"', ' ', 'j', '>'],
+    ['</x', ' ', '>'],
+    ['<p:x', ' ', 'a:k', '=', '"v"', '>'],
+]
+# gap positions that make the symbolic character part of a *name* (expensive: Unicode \d/\s tables)
+# (skeleton, gap positions at which an inserted character would be part of an *attribute name*:
+# names become dict keys in the front end (hashing realises), so they stay concrete in this family
+# and symbolic names are covered by the tag_dissection family)
+DOCS_N = [
+    (['<a>', 't', '</a>'], ()),
+    (['<a', ' ', 'k="v"', '>', 't', '</a', '>'], (2,)),
+    (['<!--', 'c', '-->'], ()),
+    (['<![CDATA[', 'c', ']]>'], ()),
+    (['<!DOCTYPE', ' ', 'html', '>'], ()),
+    (['<?pi', ' ', 'x', '?>'], ()),
+    (['<a', ' ', 'k=', 'v', '/>'], (2,)),
+    (['&', 'amp', ';'], ()),
+    (['<a', ' ', "k='v'", ' ', 'j', '>'], (2, 4, 5)),
+]
+DOCS = [d for d, _ in DOCS_N]
+
+
+def holes(skel, k, forbidden=()):
+    """all shapes obtained by inserting k symbolic chars at gap positions (with repetition)."""
+    n = len(skel)
+    out = []
+    for gaps in itertools.combinations_with_replacement(
+            [g for g in range(1, n + 1) if g not in forbidden], k):
+        shape, idx = [], 0
+        for i, piece in enumerate(skel):
+            shape.append(piece)
+            for g in gaps:
+                if g == i + 1:
+                    shape.append(idx)
+                    idx += 1
+        # merge adjacent strings
+        merged = []
+        for p in shape:
+            if merged and isinstance(p, str) and isinstance(merged[-1], str):
+                merged[-1] += p
+            else:
+                merged.append(p)
+        out.append(merged)
+    return out
+
+
+def name_position(shape):
+    """symbolic char directly after '<', '</' or blank+nothing: it is (part of) a name start."""
+    for i, p in enumerate(shape):
+        if isinstance(p, int) and i > 0 and isinstance(shape[i - 1], str):
+            prev = shape[i - 1]
+            nxt = shape[i + 1] if i + 1 < len(shape) else ''
+            if prev.endswith(('<', '</', ' ')) and isinstance(nxt, (str, int)):
+                if prev.endswith(' ') and isinstance(nxt, str) and nxt[:1] in ('=', '>', '/', ' '):
+                    return True
+                if prev.endswith(('<', '</')):
+                    return True
+    return False
+
+
 def plan(tier, seed):
-    shapes = [[0], [0, 1], [0, 1, 2]]
-    fam = dict(name='iter_xml_tiles', module='checks.hC03', fn='tok_tiles',
-               jobs=[{'shape': s} for s in shapes], timeout=120, vacuity=1,
-               mutants=[{'name': 'TextSE_narrow', 'cfg': {'shape': [0, 1]}},
-                        {'name': 'iter_xml_pos', 'cfg': {'shape': [0, 1]}}])
-    return dict(level='model_checking', functions=['chameleon.tokenize:iter_xml'],
-                bounds='strings of length <= 3 over all code points', assumptions=[],
-                families=[fam])
+    rnd = random.Random(seed)
+    quick = tier == 'quick'
+    tag1 = [s for sk in SKELETONS for s in holes(sk, 1)]
+    tag2 = [s for sk in SKELETONS for s in holes(sk, 2)]
+    doc1 = [s for sk, fb in DOCS_N for s in holes(sk, 1, fb)]
+    doc2 = [s for sk, fb in DOCS_N for s in holes(sk, 2, fb)]
+    if quick:
+        tag_jobs = [s for s in tag1 if not name_position(s)]
+        t2 = [s for s in tag2 if not name_position(s)]
+        rnd.shuffle(t2)
+        tag_jobs += t2[:12]
+        doc_jobs = list(doc1)
+        # two symbolic characters with one of them extending the element name: thorough tier only
+        d2 = [s for s in doc2 if not (len(s) > 1 and isinstance(s[1], int) and s[0].startswith('<'))]
+        rnd.shuffle(d2)
+        doc_jobs += d2[:10]
+        tok = [[0], [0, 1], [0, 1, 2]]
+        nl = [[0, 1, 2]]
+        to_tag, to_doc, to_tok = 240, 300, 240
+    else:
+        tag_jobs = tag1 + rnd.sample(tag2, min(len(tag2), 70))
+        doc_jobs = doc1 + rnd.sample(doc2, min(len(doc2), 50))
+        tok = [[0], [0, 1], [0, 1, 2], [0, 1, 2, 3], ['<', 0, 1, 2, 3], [0, 1, 2, 3, 4]]
+        nl = [[0, 1, 2], [0, 1, 2, 3], ['a', 0, 1, 'b', 2, 3]]
+        to_tag, to_doc, to_tok = 900, 900, 900
+    fams = [
+        dict(name='iter_xml_tiles', module=H, fn='tok_tiles', jobs=[{'shape': s} for s in tok],
+             timeout=to_tok, vacuity=1,
+             mutants=[{'name': 'TextSE_narrow', 'cfg': {'shape': [0, 1]}},
+                      {'name': 'iter_xml_pos', 'cfg': {'shape': [0, 1]}}]),
+        dict(name='tag_dissection_tiles', module=H, fn='tag_tiles',
+             jobs=[{'shape': s} for s in tag_jobs], timeout=to_tag, vacuity=1,
+             mutants=[{'name': 'attr_space_collapsed', 'cfg': {'shape': ['<x ', 0, 'k="v">']}}]),
+        dict(name='frontend_emitters_verbatim', module=H, fn='verbatim',
+             jobs=[{'shape': s} for s in doc_jobs], timeout=to_doc, vacuity=1,
+             mutants=[{'name': 'end_space_doubled', 'cfg': {'shape': ['<a>t</a', 0, '>']}},
+                      {'name': 'attr_quote_normalised', 'cfg': {'shape': ["<a k='v'", 0, '>']}}]),
+        dict(name='newline_normalisation', module=H, fn='newlines', jobs=[{'shape': s} for s in nl],
+             timeout=to_tok, vacuity=1,
+             mutants=[{'name': 'crlf_only', 'cfg': {'shape': [0, 1, 2]}}]),
+    ]
+    return dict(
+        level='model_checking',
+        functions=['chameleon.tokenize:iter_xml', 'chameleon.tokenize:Token',
+                   'chameleon.parser:match_tag', 'chameleon.parser:identify',
+                   'chameleon.parser:groupdict', 'chameleon.parser:ElementParser',
+                   'chameleon.program:ElementProgram',
+                   'chameleon.zpt.program:MacroProgram.visit_element',
+                   'chameleon.zpt.program:MacroProgram.visit_text',
+                   'chameleon.zpt.program:MacroProgram.visit_comment',
+                   'chameleon.zpt.program:MacroProgram.visit_cdata',
+                   'chameleon.zpt.program:MacroProgram.visit_default',
+                   'chameleon.zpt.program:MacroProgram.visit_processing_instruction',
+                   'chameleon.zpt.program:MacroProgram._create_attributes_nodes',
+                   'chameleon.tal:prepare_attributes',
+                   'chameleon.compiler:Compiler.visit', 'chameleon.compiler:Compiler.visit_Start',
+                   'chameleon.compiler:Compiler.visit_End',
+                   'chameleon.compiler:Compiler.visit_Attribute',
+                   'chameleon.compiler:Compiler.visit_Text',
+                   'chameleon.compiler:Compiler.visit_Element',
+                   'chameleon.compiler:Compiler.visit_Define',
+                   'chameleon.zpt.template:PageTemplate.parse'],
+        bounds=('lexer totality: no length bound (regular-language inclusion). iter_xml: all strings of '
+                'length <= %d over all 1,114,112 code points. tag dissection / front end + emitters: %d + %d '
+                'enumerated shapes (tag/document skeletons with %s symbolic code point(s) at the gaps), all '
+                'code points per symbolic position; attribute and element *names* are concrete in the '
+                'front-end family (they become dict keys). newline chain: <= %d symbolic characters. '
+                'Outside: longer symbolic stretches, whole-pipeline compile()+render of a symbolic document, '
+                'element nesting beyond the skeletons.' % (
+                    3 if quick else 5, len(tag_jobs), len(doc_jobs), '1' if quick else '1-2',
+                    3 if quick else 4)),
+        assumptions=[
+            'CrossHair string/regex models and the chsym plugin are faithful (validated by native replay '
+            'of every counter-example and by the seeded in-memory mutants)',
+            'ExpressionTransform is replaced by a no-op in the emitter family: statement-free documents '
+            'contain no expression except the internal attrs alias',
+            'MacroProgram._create_static_attributes (repr+parse, C boundary) stubbed: feeds the attrs alias only',
+            'a rejection (TemplateError, undefined namespace prefix, undissectable tag token) is not a C03 '
+            'violation: the statement is conditional on the document compiling',
+        ],
+        families=fams,
+        extra=z_queries,
+    )
+
+
+def z_queries(rep, tier, seed):
+    """Engine Z: lexer totality from the live pattern, no length bound."""
+    import z3
+    from chameleon.tokenize import collector
+    from vlib import relang as R
+    pat = collector.res['XML_SPE']
+    s = z3.String('s')
+    rx = R.translate(pat, approx='under')
+    cons = [z3.Length(s) > 0, z3.Not(z3.InRe(s, z3.Concat(rx, R.ALL)))]
+    r, m, dt = R.check(cons)
+    rep.zquery('lexer_totality', 'Sigma+ subset L(XML_SPE).Sigma* (under-approximated look-aheads)', r,
+               'unsat', dt, detail={'pattern_sha': hash(pat) & 0xffffffff, 'len': len(pat)})
+    if r == 'sat':
+        w = R.z3_unescape(R.model_str(m, s))
+        from chameleon.tokenize import iter_xml
+        toks = list(iter_xml(w))
+        if ''.join(toks) != w:
+            rep.violation('lexer_totality', 'iter_xml skips input %r -> %r' % (w, toks),
+                          {'replay_module': 'checks.C03', 'input': w})
+        else:
+            rep.inconclusive.append('lexer totality query sat (%r) but does not reproduce' % w)
+    # diff a second solver once
+    r2 = R.smtlib_check_with_binary(cons)
+    rep.zquery('lexer_totality', 'same query, z3 4.8.12 binary', r2, 'unsat', 0.0, solver='z3-4.8.12')
+    # vacuity twin: without the property conjunct the query must be sat
+    r3, _, dt3 = R.check([z3.Length(s) > 0])
+    rep.zquery('lexer_totality', 'vacuity twin (property conjunct removed)', r3, 'sat', dt3)
+    # seeded mutant: narrowed TextSE must be refuted
+    bad = R.translate(pat.replace('[^<]+|', '[^<&]+|', 1), approx='under')
+    r4, m4, dt4 = R.check([z3.Length(s) > 0, z3.Not(z3.InRe(s, z3.Concat(bad, R.ALL)))])
+    rep.zquery('lexer_totality', 'mutant TextSE=[^<&]+ must be refuted', r4, 'sat', dt4,
+               detail={'witness': R.model_str(m4, s) if m4 is not None else None})
+
+
+def replay(rp):
+    from chameleon.tokenize import iter_xml
+    w = rp['input']
+    ok = ''.join(iter_xml(w)) == w
+    print('iter_xml(%r) tiles: %s' % (w, ok))
+    return 0 if ok else 1
